@@ -55,6 +55,8 @@ func (e Event) String() string {
 		return "   -> " + e.Msg
 	case "closed":
 		return "   -> (connection closed by engine)"
+	case "in":
+		return fmt.Sprintf("   <- (frame handed to the session, 34=%d)", e.Seq)
 	}
 	s := "   [" + e.Kind
 	if e.Msg != "" {
@@ -365,6 +367,12 @@ func (l *Lab) In(desc string, raw []byte) int {
 			consumed += i + len(b)
 		}
 		n++
+		if fs, err := fixwire.Scan(b, false); err == nil {
+			seq, _ := fs.Int(34)
+			l.add(Event{Kind: "in", Fields: fs, Seq: seq}, false)
+		} else {
+			l.add(Event{Kind: "in"}, false)
+		}
 		l.V.Incoming(append([]byte{}, b...), time.Now())
 		l.drain()
 	}
